@@ -4,7 +4,7 @@ from ..rules import calls_to, calls_where, blocks_of, order_ok, must_pass, retur
 from ..facts import callee_path, is_place, op_local
 from .c18 import consumers
 
-TEXT = ("Resources are never destroyed on the audio thread (Engine A: no deallocation reachable from the callback roots; every drop site discharged); every value taken out of an arena on the audio thread is moved into the unused-resource ring; the caller drains that ring before every insert and the rings share the arena's capacity; creation sites propagate the limit error (never unwrap); every path that returns after a successful try_reserve hands the key to insert_with_key (no leaked slot); every handle with a removal flag sets it on drop and the audio-side predicate of the matching storage reads it; keys inside the public ids flow only into generation-checked arena APIs; handles are not Clone (thorough: compile-fail witnesses) and creation paths cannot panic (thorough: effect analysis from creation roots). Exact accounting over long histories and the two-thread handshake are not decided. A sound that play() reports as created was inserted. Each storage is created with the capacity of its own kind. The track removal predicate is the documented one (never early, not later than the handle flag allows). The index loop of remove_unused visits every key and both storages test what they hold before they pick up new resources; a creating function consults one controller; storages are sized with the plain configured capacity of their own kind; removal predicates are the flag test and nothing else; every handle's Drop raises the flag on every path. Every shipped Modulator::finished is the removal flag and nothing else; a streaming sound whose decoder failed is finished in every state (the error test is the first thing process does, on every path). A static sound is marked as stopped in the step that consumes its last source frame (the end test lies between a push into the resampler and the next turn of its loop); the decoder raises reached_end in the step that stops the transport.")
+TEXT = ("Resources are never destroyed on the audio thread (Engine A: no deallocation reachable from the callback roots; every drop site discharged); every value taken out of an arena on the audio thread is moved into the unused-resource ring; the caller drains that ring before every insert and the rings share the arena's capacity; creation sites propagate the limit error (never unwrap); every path that returns after a successful try_reserve hands the key to insert_with_key (no leaked slot); every handle with a removal flag sets it on drop and the audio-side predicate of the matching storage reads it; keys inside the public ids flow only into generation-checked arena APIs; handles are not Clone (thorough: compile-fail witnesses) and creation paths cannot panic (thorough: effect analysis from creation roots). Exact accounting over long histories and the two-thread handshake are not decided. A sound that play() reports as created was inserted. Each storage is created with the capacity of its own kind. The track removal predicate is the documented one (never early, not later than the handle flag allows). The index loop of remove_unused visits every key and both storages test what they hold before they pick up new resources; a creating function consults one controller; storages are sized with the plain configured capacity of their own kind; removal predicates are the flag test and nothing else; every handle's Drop raises the flag on every path. Every shipped Modulator::finished is the removal flag and nothing else; a streaming sound whose decoder failed is finished in every state (the error test is the first thing process does, on every path). A static sound is marked as stopped in the step that consumes its last source frame (the end test lies between a push into the resampler and the next turn of its loop); the decoder raises reached_end in the step that stops the transport. A resource picked up in a callback takes part in that callback's hand-over itself (new resources are taken over before the owner's items are polled).")
 TECHNIQUE = 'MIR effect analysis (free) + move-flow / must-pass / error-discipline / drop-pairing rules'
 
 RS = 'backend::resources::ResourceStorage::<T>'
